@@ -49,3 +49,4 @@ CFG = dict(
     ],
     timeout=900,
 )
+CFG["rule"] += ' Plain HTTP uploads (shape up) are sent as "Application/Vnd.C06+Bin; charset=utf-8; boundary=xYz": the first HttpBody message must carry exactly that content_type.'
